@@ -129,7 +129,13 @@ func runStream(w *tr.Writer, in []byte, cls string, inCap, outCap, pace int, grn
 		h = lastHandler
 		cls += " +handler of the previous stream"
 	} else {
-		h = handler.New(framerStart, slog.LevelDebug)
+		// the handler's log level is configuration: framing and the CRC check must not depend on it (levels other than
+		// Debug and Info included); streams with a derived-field reference keep the reference's level
+		lv := slog.LevelDebug
+		if len(ra) == 0 {
+			lv = framerLevels[streamNo%len(framerLevels)]
+		}
+		h = handler.New(framerStart, lv)
 	}
 	forceReuse = false
 	lastHandler = nil
@@ -235,12 +241,28 @@ loop:
 	w.Emit(end)
 }
 
+// longStall: the consumer takes the first message and then nothing for longer than any plausible internal time-out
+// (5.5 s, 12 s in the thorough tier) while the framer is offering the next one: every message still arrives, in order
+func longStall(rng *rand.Rand, run func([]byte, string), scale int) {
+	s := gen.Cat(gen.Junk(rng, 12, 0), gen.Frame(rng, 1005, 19, 0), gen.Frame(rng, 1230, 8, 0), gen.Junk(rng, 9, 0),
+		gen.Frame(rng, 4072, 30, 0), gen.Frame(rng, 1077, 40, 0), gen.Frame(rng, 1006, 21, 0)[:17])
+	stallFor = 5500 * time.Millisecond
+	if scale > 1 {
+		stallFor = 12 * time.Second
+	}
+	run(s, "consumer-stall of several seconds")
+}
+
 func containsClose(p string) bool {
 	return len(p) >= 5 && (p == "close of closed channel" || p == "send on closed channel")
 }
 
+var framerLevels = []slog.Level{slog.LevelDebug, slog.LevelInfo, slog.LevelWarn, slog.LevelDebug, slog.LevelError, slog.Level(-8), slog.Level(2)}
+var getMessageNo = 0
+
 func getMessage(w *tr.Writer, buf []byte, cls string) {
-	getMessageOn(w, handler.New(framerStart, slog.LevelDebug), buf, cls)
+	getMessageNo++
+	getMessageOn(w, handler.New(framerStart, framerLevels[getMessageNo%len(framerLevels)]), buf, cls)
 }
 
 // getMessageOn: GetMessage on a handler that may already have seen other frames (the verdict on one
@@ -541,6 +563,10 @@ func framer(args []string) {
 			}
 		}
 
+		if !corrupt {
+			longStall(rng, run, scale)
+		}
+
 	case "c02":
 		// every prefix of structured streams
 		for i := 0; i < 2*scale; i++ {
@@ -633,6 +659,7 @@ func framer(args []string) {
 			stallFor = time.Duration(120+60*k) * time.Millisecond
 			run(s, "consumer-stall")
 		}
+		longStall(rng, run, scale)
 		// the producer goes quiet for 0.6 s in the middle of the stream
 		for k := 0; k < 2*scale; k++ {
 			s := gen.Cat(gen.Frame(rng, 1005, 19, 0), gen.Junk(rng, 2, 1), gen.Frame(rng, 1077, 30, 0), []byte{0xd3, 0})
